@@ -5,6 +5,9 @@
 //!
 //! * v1: table `STORE.HEIGHT_RANGES : u64 -> (u64,u64)` (index -> inclusive range), no
 //!   `STORE.RANGES` table, no sampled ranges;
+//! * v1+sampled: the same plus a `STORE.RANGES` table holding sampled ranges under the pre-v3
+//!   key `KEY.ACCEPTED_SAMPING_RANGES` (the chain v1 -> v2 -> v3 is agnostic about where the
+//!   sampled ranges come from and must carry them over);
 //! * v2: table `STORE.RANGES : &str -> Vec<(u64,u64)>` with `KEY.HEADER_RANGES` and the v2
 //!   sampled key `KEY.ACCEPTED_SAMPING_RANGES`;
 //! * v3 (current) and the unknown future versions 4, 5: `STORE.RANGES` with
@@ -74,6 +77,11 @@ struct Case {
     /// all current tables pre-created and an identity present (as a database that was really
     /// used by that version would have)
     full: bool,
+    /// only for version 1: the database additionally holds a `STORE.RANGES` table with the
+    /// sampled ranges under the pre-v3 key (the migration chain v1 -> v2 -> v3 must carry
+    /// them over like those of a v2 database)
+    #[serde(default)]
+    v1_sampled: bool,
 }
 
 /// A fixed, valid libp2p ed25519 keypair (protobuf encoding) for the `full` layout.
@@ -127,6 +135,10 @@ fn write_db(c: &Case) -> LoggingBackend {
             let mut t = tx.open_table(V1_HEIGHT_RANGES).unwrap();
             for (i, r) in stored.iter().enumerate() {
                 t.insert(i as u64, *r).unwrap();
+            }
+            if c.v1_sampled {
+                let mut t = tx.open_table(RANGES_TABLE).unwrap();
+                t.insert(SAMPLED_RANGES_KEY_V2, sampled).unwrap();
             }
         } else {
             let mut t = tx.open_table(RANGES_TABLE).unwrap();
@@ -224,9 +236,15 @@ fn eval(c: &Case, rep: &mut Report) {
     let case = serde_json::to_value(c).unwrap();
     let key = fnv64(case.to_string().as_bytes());
     let want_stored = runs_of(c.stored, c.n);
-    let want_sampled = if c.version == 1 { vec![] } else { runs_of(c.sampled, c.n) };
+    let want_sampled = if c.version == 1 && !c.v1_sampled { vec![] } else { runs_of(c.sampled, c.n) };
     let nontrivial = c.stored != 0 || c.sampled != 0;
-    let vname = if c.version == 0 { "absent".to_string() } else { format!("v{}", c.version) };
+    let vname = if c.version == 0 {
+        "absent".to_string()
+    } else if c.v1_sampled {
+        "v1+sampled".to_string()
+    } else {
+        format!("v{}", c.version)
+    };
 
     let be = write_db(c);
     let before = be.image();
@@ -339,11 +357,11 @@ fn main() {
         let _ = template();
         let mut cases: Vec<Case> = vec![];
         for full in [false, true] {
-            for version in [3u64, 2, 1, 0, 4, 5] {
+            for (version, v1_sampled) in [(3u64, false), (2, false), (1, false), (1, true), (0, false), (4, false), (5, false)] {
                 for stored in 0..(1u32 << n) {
-                    let sampled_space = if version == 1 { 1 } else { 1u32 << n };
+                    let sampled_space = if version == 1 && !v1_sampled { 1 } else { 1u32 << n };
                     for sampled in 0..sampled_space {
-                        cases.push(Case { n, version, stored, sampled, full });
+                        cases.push(Case { n, version, stored, sampled, full, v1_sampled });
                     }
                 }
             }
@@ -356,13 +374,13 @@ fn main() {
         &ctx,
         rep,
         Spec {
-            rule: "databases written with plain redb using the historical table definitions: every subset of heights 1..=N (N=6 quick, 7 thorough) as stored ranges x every subset as sampled ranges (v1 has none) x schema version in {absent,1,2,3,4,5} x layout {bare, all tables + identity}; each opened twice with the real RedbStore::new over a cloneable backend; distinct = (N, version, stored, sampled, layout); non-trivial = some range is non-empty",
+            rule: "databases written with plain redb using the historical table definitions: every subset of heights 1..=N (N=6 quick, 7 thorough) as stored ranges x every subset as sampled ranges x schema version in {absent,1,1+sampled,2,3,4,5} (plain v1 has no sampled ranges: stored subsets only; '1+sampled' = v1 height-ranges table plus a STORE.RANGES table with the sampled ranges under the pre-v3 key) x layout {bare, all tables + identity}; each opened twice with the real RedbStore::new over a cloneable backend; distinct = (N, version variant, stored, sampled, layout); non-trivial = some range is non-empty",
             assumptions: &[
                 "v1 layout reconstructed from migrate_v1_to_v2: STORE.HEIGHT_RANGES : u64 index -> (start,end), ascending, no sampled ranges; v2 from migrate_v2_to_v3: STORE.RANGES with KEY.HEADER_RANGES and KEY.ACCEPTED_SAMPING_RANGES",
                 "'absent' = current layout without a schema version entry (what the store treats as a new database)",
                 "'without modification' = every table and entry unchanged, and additionally the backend image byte-identical",
             ],
-            required_classes: &["v1:opened-preserved", "v2:opened-preserved", "v3:opened-preserved", "absent:opened-preserved", "v4:refused*", "v5:refused*"],
+            required_classes: &["v1:opened-preserved", "v1+sampled:opened-preserved", "v2:opened-preserved", "v3:opened-preserved", "absent:opened-preserved", "v4:refused*", "v5:refused*"],
             exhaustive: true,
         },
     );
